@@ -151,7 +151,8 @@ fn elem_type(f: &Field, j: usize) -> String {
         Kind::Signed => format!("i{w}"),
         Kind::EnumExh => format!("{}E{j}", if f.qualified { "self::" } else { "" }),
         Kind::EnumOpt { .. } if f.claims_exhaustive => format!("E{j}"),
-        Kind::EnumOpt { .. } => format!("Option<{}E{j}>", if f.qualified { "self::" } else { "" }),
+        // the macro looks at the last path segment, so the fully qualified spelling is accepted too
+        Kind::EnumOpt { .. } => format!("{}Option<{}E{j}>", if f.qualified && f.attr_order % 2 == 1 { "core::option::" } else { "" }, if f.qualified { "self::" } else { "" }),
         Kind::Nested => format!("{}N{j}", if f.qualified { "self::" } else { "" }),
         Kind::User => format!("{}U{j}", if f.qualified { "self::" } else { "" }),
     }
